@@ -2,7 +2,8 @@
 import itertools
 
 MODEL = "C12"
-MODEL_ENTRY = "run_C12X"     # the extended alphabet of Model/Dispatcher.v (xstep); base ops behave as in run_C12
+MODEL_ENTRY = "run_C12XN"    # Model/Dispatcher.v: run_C12X (the extended alphabet, xstep; base ops behave as in run_C12) for a
+                             # sequence without a dispatching listener, else run_C12N (the third layer, nstep)
 PROP_FILES = ["Props/C12.v"]
 RULE = ("op sequences over {add(event in 2, priority in {-1,0,5}, stops?), dispatch(event in 3), get_listeners(e0), "
         "get_listeners()} exhaustive to length 4 (quick) / 5 (thorough); over a mixed alphabet of 27 ops that adds "
@@ -16,8 +17,9 @@ RULE = ("op sequences over {add(event in 2, priority in {-1,0,5}, stops?), dispa
         "creation order - a function, a function with other parameter names, a bound method of which every use (registration "
         "again, get_listener_priority) fetches a new equal object; NESTED dispatches - a listener that dispatches a later event on "
         "the dispatcher it is handed - exhaustive to length 3 (quick) / 4 (thorough) over 19 ops and in a fifth of the random "
-        "sequences, judged by the ORACLE ALONE (the expected flat call log is computed from the registrations; every dispatch, "
-        "outer or nested, hands ITS name, ITS one event object and the dispatcher to its listeners); every sequence is followed by a fixed query suffix "
+        "sequences (model: the third layer of Model/Dispatcher.v, entry run_C12N, theorem nrun_refines; the oracle computes the "
+        "expected flat call log from the registrations on its own; every dispatch, outer or nested, hands ITS name, ITS one event "
+        "object and the dispatcher to its listeners); every sequence is followed by a fixed query suffix "
         "(has_listeners(None/e), get_listener_priority for every (event, callable), dispatch and get_listeners per event); "
         "registrations go straight to an EventDispatcher, or through ApplicationConfig.add_event_listener (dispatcher made "
         "on demand / set beforehand); every listener records the (event, event_name, dispatcher) it is called with and the "
@@ -25,8 +27,8 @@ RULE = ("op sequences over {add(event in 2, priority in {-1,0,5}, stops?), dispa
         "by (op sequence, registration route)")
 TRUSTED = ["callables are identified by creation order; a listener created by another listener during a dispatch gets the next id "
            "at that moment (harness and model count alike)",
-           "a dispatch made from inside a listener (nested) has no Coq model: Model/Dispatcher.v's dispatch is not re-entrant; those "
-           "histories (600 exhaustive + 4 000 random in quick) are checked by the oracle only - testing, no theorem"]
+           "nested dispatches: a dispatching callable is registered again only for events before the one it dispatches (harness, "
+           "oracle and model skip the op otherwise: no cycles); the model's dispatch takes fuel 8, the generator nests 3 deep at most"]
 ASSUMPTIONS = ["priorities are ints",
                "for an event where one callable is registered more than once the oracle says nothing about multiplicity, order "
                "and get_listener_priority (the statement's 'each once' does not decide whether that is one listener or two); the "
@@ -59,8 +61,8 @@ MIX = [[0, 0, 0, 0], [0, 0, 0, 1], [0, 0, 5, 0], [0, 0, 5, 1], [0, 1, 0, 0], [1,
 MIX4 = [[0, 0, 0, 0], [0, 0, 5, 0], [0, 0, 0, 1], [1, 0], [3, 0], [4], [2, [0]], [5, 0, 0],
         [6, 0, 0, 0], [6, 0, 5, 0], [7, 0, 0], [8, 0], [9, 0, 0, 0, 0], [9, 0, 0, 0, 5]]
 # NESTED dispatch: op 10 = add a listener that, when called, dispatches another event on the dispatcher it is handed
-# [10, event, priority, event2, stops] (event2 > event: no cycles).  The Coq model has no re-entrant dispatch: these histories
-# are judged by the oracle alone (TRUSTED says so) - the expected flat call log is computed from the registrations.
+# [10, event, priority, event2, stops] (event2 > event: no cycles).  Model: the third layer of Model/Dispatcher.v (nstep,
+# run_C12N; theorem nrun_refines); the oracle computes the expected flat call log from the registrations on its own.
 NEST = [[10, 0, 0, 1, 0], [10, 0, 5, 1, 0], [10, 0, 0, 1, 1], [10, 0, 0, 2, 0], [10, 1, 0, 2, 0], [10, 1, 5, 2, 1],
         [0, 0, 0, 0], [0, 0, 5, 0], [0, 0, 0, 1], [0, 1, 0, 0], [0, 1, 5, 1], [0, 1, -1, 0], [0, 2, 0, 0], [0, 2, 0, 1],
         [9, 1, 0, 1, 5], [9, 1, 0, 0, 5], [1, 0], [1, 1], [8, 0]]
@@ -145,7 +147,7 @@ def gen(rng, tier, info):
             if any(o[0] in (2, 5, 6, 7, 8, 9) for o in seq):
                 cases.append({"ops": list(seq), "via": 0})
     n_mix4 = len(cases) - n_base - n_mix
-    # nested dispatches (oracle only): every sequence of <= 3 (quick) / 4 (thorough) ops of NEST with a dispatching listener
+    # nested dispatches: every sequence of <= 3 (quick) / 4 (thorough) ops of NEST with a dispatching listener
     # and an outer dispatch after it, + random ones
     n_nest = 0
     for k in range(2, {"quick": 3, "thorough": 4, "search": 3}[tier] + 1):
@@ -166,8 +168,8 @@ def gen(rng, tier, info):
     info["distribution"] = {"exhaustive_sequences_base_alphabet": n_base, "exhaustive_max_len": depth,
                             "exhaustive_sequences_mixed_alphabet_len_<=3": n_mix,
                             "exhaustive_sequences_14_op_mixed_alphabet_len_4..%d" % depth: n_mix4,
-                            "exhaustive_sequences_with_a_nested_dispatch (oracle only)": n_nest,
-                            "random_sequences": nrand, "of_which_with_nested_dispatches (oracle only)": n_rand_nested,
+                            "exhaustive_sequences_with_a_nested_dispatch": n_nest,
+                            "random_sequences": nrand, "of_which_with_nested_dispatches": n_rand_nested,
                             "event_name_sets": len(NAMESETS), "priorities_in_random_sequences": sorted(set(PRIOS + [2, 7, -3] + BIG_PRIOS)),
                             "random_len_histogram": {str(k): v for k, v in sorted(lens.items())},
                             "note": "the statement's 'exhaustive to length 7' is not what runs: 17^7 sequences; see RULE"}
@@ -179,8 +181,6 @@ def full_ops(case):
 
 
 def wire(case):
-    if is_nested(case):
-        return []                       # no model for a dispatch from inside a listener: the oracle alone judges (TRUSTED)
     out = []
     for o in full_ops(case):
         if o[0] == 2:
@@ -364,11 +364,11 @@ def _canon(obs):
 
 
 def canon_impl(case, obs):
-    return [] if is_nested(case) else _canon(obs)
+    return _canon(obs)
 
 
 def canon_model(case, obs):
-    return [] if is_nested(case) else _canon(obs)
+    return _canon(obs)
 
 
 def oracle(case, obs):
